@@ -107,6 +107,22 @@ def variants(kinds):
                 els = [n for n in ast.walk(fn) if isinstance(n, ast.If) and n.orelse and _term(n.body)]
                 if els:
                     out.append(("L", f"{rel}:{q}: else after return/raise removed ({len(els)})", rel, (q, None)))
+            if "M" in kinds:
+                def _blocks(n_):
+                    for f_ in ("body", "orelse", "finalbody"):
+                        b_ = getattr(n_, f_, None)
+                        if isinstance(b_, list) and b_ and isinstance(b_[0], ast.stmt):
+                            yield b_
+                    for h in getattr(n_, "handlers", []) or []:
+                        yield h.body
+                cnt = 0
+                for n_ in ast.walk(fn):
+                    for b_ in _blocks(n_):
+                        for i_, st_ in enumerate(b_[:-1]):
+                            if isinstance(st_, ast.If) and not st_.orelse and st_.body and isinstance(st_.body[-1], (ast.Return, ast.Raise)):
+                                cnt += 1
+                if cnt:
+                    out.append(("M", f"{rel}:{q}: rest of block moved into else after a guard clause ({cnt})", rel, (q, None)))
             if "H" in kinds:
                 cmps = [n for n in ast.walk(fn) if isinstance(n, ast.Compare) and len(n.ops) == 1 and isinstance(n.ops[0], (ast.Eq, ast.NotEq))]
                 if cmps:
@@ -151,6 +167,22 @@ def make_variant(sc, kind, rel, arg):
                     if isinstance(n, ast.If) and n.orelse and not (len(n.orelse) == 1 and isinstance(n.orelse[0], ast.If)):
                         n.test = ast.UnaryOp(op=ast.Not(), operand=n.test)
                         n.body, n.orelse = n.orelse, n.body
+            elif kind == "M":
+                def fixm(block):
+                    for st in block:
+                        for f_ in ("body", "orelse", "finalbody"):
+                            b_ = getattr(st, f_, None)
+                            if isinstance(b_, list) and b_ and isinstance(b_[0], ast.stmt):
+                                fixm(b_)
+                        for h in getattr(st, "handlers", []) or []:
+                            fixm(h.body)
+                    for i in range(len(block) - 1):
+                        st = block[i]
+                        if isinstance(st, ast.If) and not st.orelse and st.body and isinstance(st.body[-1], (ast.Return, ast.Raise)):
+                            st.orelse = block[i + 1:]
+                            del block[i + 1:]
+                            break
+                fixm(fn.body)
             elif kind == "J":
                 class DJ(ast.NodeTransformer):
                     def visit_Call(self, n):
@@ -244,7 +276,7 @@ def main():
     args = sys.argv[1:]
     props = ALL
     limit = None
-    kinds = [a for a in args if a in ("A", "B", "C", "D", "E", "G", "H", "I", "J", "L")] or ["A", "B", "C", "D", "E", "G", "H", "I", "J", "L"]
+    kinds = [a for a in args if a in ("A", "B", "C", "D", "E", "G", "H", "I", "J", "L", "M")] or ["A", "B", "C", "D", "E", "G", "H", "I", "J", "L", "M"]
     for i, a in enumerate(args):
         if a == "--props":
             props = args[i + 1].split(",")
